@@ -35,8 +35,15 @@ func (r *Rediaron) RemovePod(ctx context.Context, podname string) error {
 		return errors.Wrapf(types.ErrPodHasNodes, "pod %s still has %d nodes, delete them first", podname, l)
 	}
 
-	_, err = r.cli.Del(ctx, key).Result()
-	return err
+	n, err := r.cli.Del(ctx, key).Result()
+	if err != nil {
+		return err
+	}
+	// like the etcd store: removing a pod that does not exist is an error
+	if n != 1 {
+		return errors.Wrap(types.ErrPodNotFound, podname)
+	}
+	return nil
 }
 
 // GetPod gets a pod by name
